@@ -626,11 +626,18 @@ def scan_call_body(body, av, casts, file_src):
         cut = sm.start() if sm else len(tail)
         tail = re.sub(r"(?<![\w.$])\*?%s\b(?!\s*[:(!])" % name, expr, tail[:cut]) + tail[cut:]
         text = text[:m.start()] + "let _ = (%s);" % expr + tail
-    # iteration over the argument slice: `for x in args.iter().skip(k) {` / `for x in &args[k..] {`
-    for m in list(re.finditer(r"\bfor\s+(\w+)\s+in\s+(?:&\s*%s\[(\d+)\.\.\]|%s\s*\.iter\(\)(?:\s*\.skip\((\d+)\))?)\s*\{" % (av, av), text)):
-        var = m.group(1)
-        k = int(m.group(2) or m.group(3) or 0)
+    # iteration over the argument slice: `for x in args.iter().skip(k) {` / `for x in &args[k..] {` /
+    # `for (i, x) in args.iter().skip(k).enumerate() {` (the counter `i` is not a Value and is left alone)
+    while True:
+        m = re.search(r"\bfor\s+(?:(\w+)\s+in\s+(?:&\s*%s\[(\d+)\.\.\]|%s\s*\.iter\(\)(?:\s*\.skip\((\d+)\))?)"
+                      r"|\(\s*(\w+)\s*,\s*(\w+)\s*\)\s+in\s+%s\s*\.iter\(\)(?:\s*\.skip\((\d+)\))?\s*\.enumerate\(\))\s*\{" % (av, av, av), text)
+        if not m:
+            break
+        var = m.group(1) or m.group(5)
+        k = int(m.group(2) or m.group(3) or m.group(6) or 0)
         j = match_close(text, m.end() - 1)
+        if m.group(4) and (m.group(4) == var or re.search(r"(?<![\w.])%s\s*\.\s*(to_|is_)" % m.group(4), text[m.end():j])):
+            raise Unclassified("enumerate counter %s used as a value" % m.group(4))
         blk = re.sub(r"(?<![\w.])\*?%s\b(?!\s*[:(!])" % var, "%s[@%d]" % (av, k), text[m.end():j])
         text = text[:m.start()] + "for _ in _REST_ {" + blk + text[j:]
     # `args[k..].iter().map(|x| ...)` / `args.iter().map(|x| ...)`
@@ -955,6 +962,13 @@ def collect_natives(repo, casts):
     n_unchecked = len(re.findall(r"\.to_obj\(\)\s*\.to_str\(\)", ib))
     if n_unchecked and not re.search(r"is_obj_kind\(\s*ObjectKind::String\s*\)", ib):
         results.append(("laythe_vm/src/vm/ops.rs", "Vm::op_interpolate", "ok:String", "stack slice x%d" % n_unchecked))
+    # the VM's own unwraps of instance fields (`Fiber::print_error` reads the message field of an uncaught error)
+    for f in sorted(glob.glob(os.path.join(repo, "laythe_vm", "src", "**", "*.rs"), recursive=True)):
+        rel = os.path.relpath(f, repo)
+        t = strip_strings(strip_test_modules(strip_comments(open(f).read())))
+        for m in re.finditer(r"\b(\w+)\[(\d+)\]", t):
+            for var, k, kind in field_unwraps(t[m.start():m.end() + 80], casts)[:1]:
+                fields.append((rel, "fn %s" % enclosing_fn(t, m.start()), "%s[%d]" % (var, k), kind))
     if len(rows) < 100:
         raise TranslateError("only %d natives found (expected well over 100)" % len(rows))
     counted = {}
@@ -1109,46 +1123,104 @@ def gen_limits(repo, out):
     if not m:
         raise TranslateError("MAX_FRAME_SIZE not found")
     max_frame = int(m.group(1))
-    um = re.search(r"pub const UNDEFINED_ARRAY\s*:\s*\[Value;\s*([^\]]+)\]", src)
-    if not um:
-        raise TranslateError("UNDEFINED_ARRAY not found")
-    ulen_e = norm(um.group(1))
-    ulen = {"u8::MAX as usize": 255, "u16::MAX as usize": 65535}.get(ulen_e)
-    if ulen is None:
-        if not ulen_e.isdigit():
-            raise TranslateError("UNDEFINED_ARRAY length %r not understood" % ulen_e)
-        ulen = int(ulen_e)
+    # the initial stack of a fiber: `Fiber::new` / `Fiber::split` copy `stack_count` slots out of a slice
+    frel = "laythe_vm/src/fiber/mod.rs"
+    fsrc = strip_test_modules(strip_comments(read(repo, frel)))
+    fiber_init = []
+    for fn in ("new", "split"):
+        body = fn_body(fsrc, r"pub fn %s\s*<\s*C\s*:\s*TraceRoot\s*\+\s*GcContext\s*>\s*\(" % fn, "Fiber::%s" % fn)
+        sm = re.findall(r"let\s+mut\s+stack\s*=\s*UniqueVector::new\(\s*allocator\.manage\(\s*VecBuilder::new\(\s*(&[^,]+?)\s*,\s*(\w+)\s*,?\s*\)\s*,\s*context\s*,?\s*\)\s*,?\s*\)\s*;", body)
+        if len(sm) != 1:
+            raise TranslateError("Fiber::%s: the construction of the initial stack (`let mut stack = UniqueVector::new(allocator.manage(VecBuilder::new(..` changed" % fn)
+        slice_e, count_e = norm(sm[0][0]), sm[0][1]
+        lm = re.fullmatch(r"&\s*(\w+)", slice_e)
+        if lm:
+            defs = list(re.finditer(r"let\s+%s\s*=\s*" % lm.group(1), body))
+            if len(defs) != 1:
+                raise TranslateError("Fiber::%s: `%s` is not bound exactly once" % (fn, lm.group(1)))
+            slice_e = "&" + norm(split_top(body[defs[0].end():], ";")[0])
+        fiber_init.append((fn, slice_e, count_e))
     ops = strip_comments(read(repo, "laythe_vm/src/vm/ops.rs"))
+    guard_re = r"if\s+self\.fiber\.frames\(\)\.len\(\)\s*(==|>=|>|<=|<|!=)\s*([A-Z_0-9a-z]+)\s*\{"
+
+    def guard_before_push(text, what):
+        """the (comparison, bound) of the last limit test that returns the runtime error in front of the one push_frame"""
+        if len(re.findall(r"self\.push_frame\(", text)) != 1:
+            raise TranslateError("%s: expected exactly one push_frame" % what)
+        pf = text.find("self.push_frame(")
+        g = None
+        for gm in re.finditer(guard_re, text[:pf]):
+            blk = text[gm.end():match_close(text, gm.end() - 1)]
+            if re.fullmatch(r"\s*return\s+self\.runtime_error_from_str\(\s*self\.builtin\.errors\.runtime\s*,\s*\"_*\"\s*,?\s*\)\s*;\s*", blk):
+                g = (gm.group(1), gm.group(2))
+        return g
+
     guards = []
+    # call_native: the stub frame is pushed in the arm of NativeEnvironment::Normal only
+    cn = strip_strings(fn_body(ops, r"unsafe fn call_native\s*\(", "call_native"))
+    nm = re.search(r"NativeEnvironment::Normal\s*=>\s*\{", cn)
+    if not nm:
+        raise TranslateError("call_native: arm NativeEnvironment::Normal not found")
+    normal = cn[nm.end():match_close(cn, nm.end() - 1)]
+    native_push = len(re.findall(r"self\.push_frame\(", cn))
+    if native_push != len(re.findall(r"self\.push_frame\(", normal)):
+        raise TranslateError("call_native: a frame is pushed outside the arm NativeEnvironment::Normal")
+    g = guard_before_push(normal, "call_native (Normal)")
+    guards.append(("call_native", g[0] if g else "", g[1] if g else ""))
     for fn in ("call_closure", "call"):
         body = fn_body(ops, r"unsafe fn %s\s*\(\s*&mut self\s*,\s*\w+\s*:\s*ObjRef<\w+>\s*,\s*arg_count\s*:\s*u8\s*\)\s*->\s*ExecutionSignal\s*" % fn, fn)
-        body = strip_strings(body)
-        pf = body.find("self.push_frame(")
-        if pf < 0:
-            raise TranslateError("%s: push_frame not found" % fn)
-        g = None
-        for gm in re.finditer(r"if\s+self\.fiber\.frames\(\)\.len\(\)\s*(==|>=|>)\s*([A-Z_0-9a-z]+)\s*\{", body[:pf]):
-            blk = body[gm.end():match_close(body, gm.end() - 1)]
-            if re.search(r"return\s+self\.runtime_error", blk):
-                g = (gm.group(1), gm.group(2))
+        g = guard_before_push(strip_strings(body), fn)
         guards.append((fn, g[0] if g else "", g[1] if g else ""))
-    # frames pushed without a limit test (native stub frames)
-    cn = strip_strings(fn_body(ops, r"unsafe fn call_native\s*\(", "call_native"))
-    native_push = len(re.findall(r"self\.push_frame\(", cn))
-    native_guard = bool(re.search(r"frames\(\)\.len\(\)", cn))
+    # every place of the VM (outside tests) that pushes a frame: file:function
+    push_sites = []
+    for f in sorted(glob.glob(os.path.join(repo, "laythe_vm", "src", "**", "*.rs"), recursive=True)):
+        r_ = os.path.relpath(f, repo)
+        t = strip_strings(strip_test_modules(strip_comments(open(f).read())))
+        for pm in re.finditer(r"(?<!fn )\b(?:self|fiber)\s*\.\s*push_frame\s*\(", t):
+            push_sites.append("%s:%s" % (r_[len("laythe_vm/src/"):], enclosing_fn(t, pm.start())))
+    # chan(n): the tests of op_buffered_channel in front of the allocation of the buffer
+    cm = re.search(r"pub const MAX_CHANNEL_CAPACITY\s*:\s*usize\s*=\s*([^;]+);", src)
+    if not cm:
+        raise TranslateError("MAX_CHANNEL_CAPACITY not found")
+    cap_e = norm(cm.group(1))
+    sh = re.fullmatch(r"1\s*<<\s*(\d+)", cap_e)
+    if sh:
+        max_chan = 1 << int(sh.group(1))
+    elif cap_e.replace("_", "").isdigit():
+        max_chan = int(cap_e.replace("_", ""))
+    else:
+        raise TranslateError("MAX_CHANNEL_CAPACITY = %r not understood" % cap_e)
+    bc = strip_strings(fn_body(ops, r"unsafe fn op_buffered_channel\s*\(", "op_buffered_channel"))
+    alloc = bc.find("Channel::with_capacity(")
+    if alloc < 0 or not re.search(r"Channel::with_capacity\(\s*&hooks\s*,\s*capacity as usize\s*\)", bc):
+        raise TranslateError("op_buffered_channel: Channel::with_capacity(&hooks, capacity as usize) not found")
+    chan_tests = []
+    for tm in re.finditer(r"\bif\s+([^{]+?)\s*\{", bc[:alloc]):
+        blk = bc[tm.end():match_close(bc, tm.end() - 1)]
+        em = re.match(r"\s*return\s+self\.runtime_error_from_str\(\s*self\.builtin\.errors\.(\w+)\s*,", blk)
+        if not em:
+            raise TranslateError("op_buffered_channel: a test in front of the allocation does not return an error: %r" % norm(tm.group(1)))
+        chan_tests.append((norm(tm.group(1)), em.group(1)))
     # resolve_call dispatch arms
     rc = strip_strings(fn_body(ops, r"unsafe fn resolve_call\s*\(", "resolve_call"))
     arms = re.findall(r"ObjectKind::(\w+)\s*\(\s*\w+\s*\)\s*=>\s*\{\s*self\.(\w+)\(", rc)
     if not re.search(r"if\s+!callee\.is_obj\(\)\s*\{", rc) or not re.search(r"_\s*=>\s*\{", rc):
         raise TranslateError("resolve_call: non-object test or default arm not found")
-    L = [HEADER % (rel + ", laythe_vm/src/vm/ops.rs"), "namespace LaytheVerif.Gen.Limits\n",
+    L = [HEADER % (rel + ", laythe_vm/src/vm/ops.rs, " + frel), "namespace LaytheVerif.Gen.Limits\n",
          "/-- `MAX_FRAME_SIZE` -/", "def maxFrameSize : Nat := %d\n" % max_frame,
-         "/-- length of `UNDEFINED_ARRAY` (the slice `Fiber::new`/`split` copy the initial slots from) -/",
-         "def undefinedArrayLen : Nat := %d\n" % ulen,
-         "/-- the test in front of `push_frame` in `call_closure` and `call`: (function, comparison, bound); \"\" = none -/",
+         "/-- the initial stack of `Fiber::new` / `Fiber::split`: (function, slice the slots are copied from, number of slots requested) -/",
+         "def fiberInitStack : List (String × String × String) := [" + ", ".join("(%s, %s, %s)" % (lean_str(a), lean_str(b), lean_str(c)) for a, b, c in fiber_init) + "]\n",
+         "/-- the test in front of `push_frame` in `call_native` (arm `NativeEnvironment::Normal`), `call_closure` and `call`:\n"
+         "    (function, comparison of `frames().len()` with the bound, bound); the guarded block returns the `Stack overflow.` runtime error; \"\" = none -/",
          "def frameGuards : List (String × String × String) := [" + ", ".join("(%s, %s, %s)" % (lean_str(a), lean_str(b), lean_str(c)) for a, b, c in guards) + "]\n",
-         "/-- `call_native` (Normal environment) pushes a stub frame: (number of push_frame calls, is there a frame-limit test) -/",
-         "def nativeStubPush : Nat × Bool := (%d, %s)\n" % (native_push, "true" if native_guard else "false"),
+         "/-- `call_native` pushes its stub frame only in the arm `NativeEnvironment::Normal`: (number of push_frame calls, a frame-limit test precedes it) -/",
+         "def nativeStubPush : Nat × Bool := (%d, %s)\n" % (native_push, "true" if guards[0][1] else "false"),
+         "/-- every function of laythe_vm (tests excluded) that pushes a call frame, as `file:function` -/",
+         "def pushFrameSites : List String := [" + ", ".join(lean_str(x) for x in push_sites) + "]\n",
+         "/-- `MAX_CHANNEL_CAPACITY` -/", "def maxChannelCapacity : Nat := %d\n" % max_chan,
+         "/-- `op_buffered_channel`: the tests between popping the capacity and `Channel::with_capacity(&hooks, capacity as usize)`,\n"
+         "    in order: (condition, error class raised when it holds) -/",
+         "def chanCapacityTests : List (String × String) := [" + ", ".join("(%s, %s)" % (lean_str(a), lean_str(b)) for a, b in chan_tests) + "]\n",
          "/-- object kinds `resolve_call` dispatches on, with the handler; every other kind and every non-object raises `… is not callable.` -/",
          "def resolveCallArms : List (String × String) := [" + ", ".join("(%s, %s)" % (lean_str(a), lean_str(b)) for a, b in arms) + "]\n",
          "end LaytheVerif.Gen.Limits\n"]
